@@ -42,6 +42,14 @@ pub struct SynOpts {
   pub no_type_tagnum: bool,
   /// `$$name` only where a group name is expected (bare group entry)
   pub no_group_socket_in_type_pos: bool,
+  /// `$name` only where a type name is expected (not after `&`)
+  pub no_type_socket_in_group_pos: bool,
+  /// no `(type) => ...` member key (open finding: read as an inline group)
+  pub no_paren_at_arrow_key_head: bool,
+  /// float literals with a radix mantissa (0b1e2, 0x1.5): derivable, rejected by the crate (open finding)
+  pub radix_float_literals: bool,
+  /// byte strings with an escaped apostrophe ('it\\'s')
+  pub escaped_quote_in_bytes: bool,
   /// h'..' / b64'..' literals spelled over two lines with a `; text` inside the quotes (RFC 8610 section 3.1)
   pub bytes_with_inner_comment: bool,
 }
@@ -64,6 +72,10 @@ impl Default for SynOpts {
       no_bare_tag6: false,
       no_type_tagnum: false,
       no_group_socket_in_type_pos: false,
+      no_type_socket_in_group_pos: false,
+      no_paren_at_arrow_key_head: false,
+      radix_float_literals: false,
+      escaped_quote_in_bytes: false,
       bytes_with_inner_comment: false,
     }
   }
@@ -147,9 +159,22 @@ impl<'a, 'b, 'o> SynGen<'a, 'b, 'o> {
           Lit::text(*self.t.pick(TEXTS_ESC))
         }
       }
-      2 => Lit::float(*self.t.pick(FLOATS)),
+      2 => {
+        if self.o.radix_float_literals && self.t.chance(1, 6) {
+          let (v, sp) = *self.t.pick(&[(4.0f64, "0b1e2"), (1.5, "0x1.5"), (-300.0, "-0b11e2"), (16.0, "0x10e0")]);
+          Lit::Float { v, sp: sp.to_string() }
+        } else {
+          Lit::float(*self.t.pick(FLOATS))
+        }
+      }
       _ => match self.t.below(3) {
-        0 => Lit::bytes_utf8(*self.t.pick(&["", "abc", "x y", "b;c", "\u{e9}"])),
+        0 => {
+          if self.o.escaped_quote_in_bytes && self.t.chance(1, 5) {
+            Lit::Bytes { kind: BytesKind::Utf8, v: b"it's".to_vec(), sp: "'it\\'s'".to_string() }
+          } else {
+            Lit::bytes_utf8(*self.t.pick(&["", "abc", "x y", "b;c", "\u{e9}"]))
+          }
+        }
         1 => {
           let n = self.t.below(5);
           let v: Vec<u8> = (0..n).map(|_| self.t.below(256) as u8).collect();
@@ -244,7 +269,10 @@ impl<'a, 'b, 'o> SynGen<'a, 'b, 'o> {
       }
       6 => Ty2::ChoiceInline(self.grp(d - 1)),
       7 => {
-        let name = self.any_name();
+        let mut name = self.any_name();
+        if self.o.no_type_socket_in_group_pos && name.starts_with('$') && !name.starts_with("$$") {
+          name = format!("${}", name);
+        }
         let args = self.args(d);
         Ty2::ChoiceName { name, args }
       }
@@ -259,7 +287,7 @@ impl<'a, 'b, 'o> SynGen<'a, 'b, 'o> {
         }
         let num = if self.t.flag() {
           match self.tagnum(0) {
-            Some(TagNum::Ty(_)) if mt != 6 && mt != 7 => None,
+            Some(TagNum::Ty(_)) if mt != 7 => None,
             x => x,
           }
         } else {
@@ -332,7 +360,10 @@ impl<'a, 'b, 'o> SynGen<'a, 'b, 'o> {
         EntKind::Val { key: Some(Key::Val(l)), ty: self.ty(d) }
       }
       3 => {
-        let t1 = self.ty1(d.min(1));
+        let mut t1 = self.ty1(d.min(1));
+        if self.o.no_paren_at_arrow_key_head && matches!(t1.t2, Ty2::Paren(_)) {
+          t1.t2 = Ty2::Name { name: "int".into(), args: vec![] };
+        }
         EntKind::Val { key: Some(Key::Arrow { t1, cut: self.t.chance(1, 3) }), ty: self.ty(d) }
       }
       _ => EntKind::Inline(self.grp(d - 1)),
